@@ -418,6 +418,10 @@ class Env_project(Env2):
         self.penalty = penalty
         assert self.nr_phys == 1, "Env_project works only for MPS, i.e., bra.nr_phys==1. Ask developers if extension needed."
 
+    def measure(self, bd=(-1, 0)):
+        """ Penalty term penalty * |<bra|proj>|^2, consistent with Heff1 and Heff2. """
+        return self.penalty * abs(super().measure(bd)) ** 2
+
     def Heff1(self, A, n):
         tmp = self.ket.A[n] @ self.F[n + 1, n]
         if (A.ndim == 2):
